@@ -266,6 +266,7 @@ class _State(object):
     def reset(self, case):
         self.case = case
         self.U = _universe(case['net'], case['salt'])
+        self.U.novalue = case.get('novalue')
         self.counters = {}
         self.log = []
         self.outage = False
@@ -464,8 +465,11 @@ def _lib_tx(U, txidx, i, confirmed=True):
         tx.confirmations = 0
         tx.date = None
         tx.status = 'unconfirmed'
-    for inp, m in zip(tx.inputs, t['ins']):
+    for k_, (inp, m) in enumerate(zip(tx.inputs, t['ins'])):
         inp.value = m['value']
+        if getattr(U, 'novalue', None) == txidx and k_ == len(tx.inputs) - 1:
+            # what providers that do not know the value of a foreign previous output deliver
+            inp.value = 0
     for n, o in enumerate(tx.outputs):
         if t['outs'][n]['address'] in U.addr:
             o.spent = U.spent_truth(txidx, n)
@@ -670,6 +674,9 @@ def _tx_equals_ref(v, t, U):
                 return 'output %d address %r != %r' % (n, o.address, m['address'])
         if v.block_height != t['height']:
             return 'block_height %r != %r' % (v.block_height, t['height'])
+        if t['height'] is not None and not (isinstance(v.confirmations, int) and v.confirmations >= 1):
+            # (the number itself moves with the chain; a transaction that was stored as confirmed has at least one)
+            return 'confirmations %r for a transaction stored as confirmed in block %d' % (v.confirmations, t['height'])
     except Exception as e:
         return 'cached transaction unusable: %r' % e
     return None
@@ -750,6 +757,7 @@ class _Run(object):
         _write_providers(c2)
         _ST.case = c2
         _ST.U = _universe(c2['net'], c2['salt'])
+        _ST.U.novalue = c2.get('novalue')
         self.m_fee, self.m_fee_fb, self.m_bc = {}, {}, []
         self.m_tx, self.m_bal, self.m_addr_known, self.lied_empty = set(), {}, set(), set()
         self.m_blk = False
@@ -1715,6 +1723,16 @@ def cache_scenarios(ctx):
                         out.append(([m], [q(m, addr=addr, after=-1, limit=l1)] + mid(0, False, reopen) +
                                     [q(m, addr=addr, after=-1, limit=l2), q('addrinfo', addr=addr)], True, None, 4,
                                     {'salt': salt, 'at_tip': True}))
+    # one transaction of the history comes without the value of one of its inputs (a provider that does not know the
+    # previous output): the library does not store such a transaction; what it serves from the cache afterwards is
+    # still a gap-free run of the history
+    for addr in (0, 1):
+        for tx in (1, 2):
+            for m in ('gettransactions', 'getutxos'):
+                for reopen in tf:
+                    out.append(([m], [q(m, addr=addr, after=-1, limit=20)] + mid(0, False, reopen) +
+                                [q(m, addr=addr, after=-1, limit=20), q('getbalance', addrs=[addr]),
+                                 q('addrinfo', addr=addr)], True, None, 4, {'novalue': tx}))
     # fee estimate while every provider is down (documented default), then again when they are back
     for blocks in (1, 3, 25):
         for dt in (1, 599, 601):
